@@ -207,6 +207,10 @@ func propCheck(c Case, outdir string) (what string) {
 		}
 		tipWindow = true
 	}
+	if c.Op.Name == "Equals" && len(c.Op.B) == 0 {
+		// compare against the elements the view denotes: both calls must answer "equal"
+		c.Op.B = append([]int64{}, want...)
+	}
 	// (b) operation on the view vs on an independent deep copy
 	dc := newMatrix(c.Sparse, t, n, k, want)
 	res1, p1 := execOp(c.Sparse, c.Type, view, c.Op, outdir)
@@ -220,7 +224,7 @@ func propCheck(c Case, outdir string) (what string) {
 	switch c.Op.Name {
 	case "Clone": // the first 7 numbers are the clone's header
 		res1, res2 = res1[7:], res2[7:]
-	case "ConstRow", "ConstCol": // the last number says whether the result aliases the storage
+	case "ConstRow", "ConstCol", "ConstDiag": // the last number says whether the result aliases the storage
 		res1, res2 = res1[:len(res1)-1], res2[:len(res2)-1]
 	}
 	if !eq64(res1, res2) {
@@ -351,6 +355,9 @@ func opInstances(sparse bool, n, k int, baseLen int) []Op {
 		default:
 			ops = append(ops, Op{Name: name})
 		}
+	}
+	if !sparse {
+		ops = append(ops, xopInstances(n, k)...)
 	}
 	return ops
 }
@@ -512,13 +519,16 @@ func (h *hunter) exhaustive(maxDim int, typesDense, typesSparse []string) {
 
 func hunt(o Opts) {
 	h := &hunter{out: o.Out, fails: map[string]*Failure{}}
+	var extraTypes []string
 	// 1. the cases handed over by the driver (mismatching correspondence cases, corpus, replay)
 	if o.Replay != "" {
 		if b, err := os.ReadFile(o.Replay); err == nil {
 			var rp struct {
-				Cases []Case `json:"cases"`
+				Cases []Case   `json:"cases"`
+				Types []string `json:"types"` // element types whose source the translator found deviating: exhaustive small shapes on them
 			}
 			json.Unmarshal(b, &rp)
+			extraTypes = rp.Types
 			for _, c := range rp.Cases {
 				if c.Bin != nil {
 					h.checkBin(*c.Bin)
@@ -526,6 +536,21 @@ func hunt(o Opts) {
 				}
 				h.check(c)
 			}
+		}
+	}
+	// 1b. shrink: every (element type, operation) that failed on a handed-over case is re-tried on all shapes <= 3x3 x all
+	// slice bounds x T with the deterministic instances of that operation (record() keeps the smallest witness per site)
+	h.shrinkSeeds()
+	// 1c. element types whose instantiation the translator reported as deviating from its family
+	{
+		var td []string
+		for _, tn := range extraTypes {
+			if _, ok := types[tn]; ok {
+				td = append(td, tn)
+			}
+		}
+		if len(td) > 0 {
+			h.exhaustive(3, td, nil)
 		}
 	}
 	if o.N > 0 {
@@ -574,6 +599,59 @@ func hunt(o Opts) {
 	}
 	b, _ := json.MarshalIndent(res, "", " ")
 	os.WriteFile(o.Out+"/hunt.json", b, 0644)
+}
+
+func (h *hunter) shrinkSeeds() {
+	type key struct {
+		sparse bool
+		tn, op string
+	}
+	todo := []key{}
+	seen := map[key]bool{}
+	ks := make([]string, 0, len(h.fails))
+	for k := range h.fails {
+		ks = append(ks, k)
+	}
+	sort.Strings(ks)
+	for _, k := range ks {
+		f := h.fails[k]
+		if f.Case.Bin != nil || f.Case.Op.Name == "" || f.Case.Op.Name == "ij" {
+			continue
+		}
+		q := key{f.Case.Sparse, f.Case.Type, f.Case.Op.Name}
+		if !seen[q] {
+			seen[q] = true
+			todo = append(todo, q)
+		}
+	}
+	for _, q := range todo {
+		for rows := 1; rows <= 3; rows++ {
+			for cols := 1; cols <= 3; cols++ {
+				vals := distinctVals(rows*cols, true)
+				progs := [][]View{nil, {{K: "T"}}}
+				for _, s := range allSlices(rows, cols) {
+					progs = append(progs, []View{{"S", s}}, []View{{"S", s}, {K: "T"}})
+				}
+				if !q.sparse {
+					for _, s := range allSlices(cols, rows) {
+						progs = append(progs, []View{{K: "T"}, {"C", s}})
+					}
+				}
+				for _, pr := range progs {
+					_, n, k, ok := applyOracle(rows, cols, pr)
+					if !ok {
+						continue
+					}
+					for _, o := range opInstances(q.sparse, n, k, rows*cols) {
+						if o.Name != q.op {
+							continue
+						}
+						h.check(Case{Sparse: q.sparse, Type: q.tn, Rows: rows, Cols: cols, Vals: vals, Views: pr, Op: o})
+					}
+				}
+			}
+		}
+	}
 }
 
 func (h *hunter) exhaustiveOne(rows, cols int) {
